@@ -1,6 +1,6 @@
 SPECIFICATION FairSpec
 CONSTANTS
-  MaxOut = 3
+  MaxOut = 2
   MaxIn = 2
   MaxXfer = 2
   MaxZ = 1
@@ -10,6 +10,6 @@ CONSTANTS
   OptSets <- AllOpts
   ExitCodes = {0, 3}
   EchoAssumed = TRUE
-INVARIANTS TypeOK PassThroughOut PassThroughIn InOrder PtrClearedOnEveryExit NoStuckFlags PromptOnlyInTransfer ExitPassed LastWordsDelivered HistoryOK
+INVARIANTS TypeOK PassThroughOut PassThroughIn PtrClearedOnEveryExit NoStuckFlags PromptOnlyInTransfer ExitPassed LastWordsDelivered HistoryOK
 PROPERTY Live
 CHECK_DEADLOCK FALSE
